@@ -726,14 +726,14 @@ impl Property for C09 {
         let seq = PartCfg {
             name: "requests",
             rule: "sequences of 4-23 requests against an instance in one of 4 states (boundary, mid-block, after a reorg, empty database): any registered method with well-typed parameters, mutated by replacing / removing / adding a parameter or the whole parameter value with junk (wrong JSON types, boundary integers, empty/odd/huge strings, tags, truncated hex/base64/RLP); no request may panic; after every request three reads must answer, after every k-th request and at the end a full write round (clearCaches, mine(1) moving the height by exactly one, eth_call) must succeed; brc20_mine(n) is watched from a second thread and must not pass height+n. Non-trivial = >= 3 requests reached a handler",
-            cases: ctx.tier.pick(640, 16_000),
+            cases: ctx.tier.pick(1500, 24_000),
             max_shrink_iters: ctx.tier.pick(300, 1500),
         };
         let mut found = explore(ctx, ev, &seq, seq_strategy, check_seq);
         let ex = PartCfg {
             name: "execution",
             rule: "3-15 executions per case: random bytes and generated programs as init code (inscription and signed), random call data, eth_call with random code, ABI-valid and ABI-invalid calls into the txid / lock-script / BIP-322 helpers (as transactions and simulations), and eth_callMany into the Bitcoin-transaction helpers with generated closed override graphs (null prevouts, out-of-range outputs, u64::MAX values); liveness probe (reads + write round) after each. Non-trivial = >= 3 executions",
-            cases: ctx.tier.pick(480, 12_000),
+            cases: ctx.tier.pick(1200, 16_000),
             max_shrink_iters: ctx.tier.pick(300, 1500),
         };
         found.extend(explore(ctx, ev, &ex, exec_strategy, check_exec));
